@@ -174,7 +174,9 @@ impl AimdController {
         let _ = self
             .limit
             .fetch_update(Ordering::Relaxed, Ordering::Relaxed, |current| {
-                let decreased = (current as f64 * self.config.decrease_factor) as usize;
+                // (never above the current limit: beyond 2^53 the round trip through f64 can
+                // round a limit *up*, past max_limit)
+                let decreased = ((current as f64 * self.config.decrease_factor) as usize).min(current);
                 Some(decreased.max(self.config.min_limit))
             });
     }
